@@ -220,7 +220,8 @@ def escapeQuotes(text: str) -> str:
 
 
 def strToIntOrFloat(inputStr: str) -> float:
-    return float(inputStr) if "." in inputStr else int(inputStr)
+    # Exponent notation (eg '5e-05') has no '.' but is not an integer
+    return float(inputStr) if any(c in inputStr for c in ".eE") else int(inputStr)
 
 
 def getValueAtTime(
